@@ -246,7 +246,7 @@ def body_steep(scn):
 
 
 def plan(tier):
-    return [("runs", 16), ("rare", 16), ("long", 16), ("steep", 16)]
+    return [("runs", 16), ("rare", 16), ("long", 16), ("steep", 16), ("logedge", 8)]
 
 
 def run_part(res, part, tier, seed, shard, nshards):
@@ -255,6 +255,8 @@ def run_part(res, part, tier, seed, shard, nshards):
         from hypothesis import strategies as st
         engine.hyp_sweep(res, st.integers(0, 2**32 - 1), body_long, runlevel.shard_count(N_LONG[tier], shard, nshards), seed * 1000 + 600 + shard,
                          case_timeout=1800)
+    elif part == "logedge":
+        runlevel.sweep(res, scenario.logedge_profile(), 96 if tier == "quick" else 1500, seed + 17, shard, nshards, body)
     elif part == "steep":
         runlevel.sweep(res, None, N_STEEP[tier], seed + 271, shard, nshards, body_steep, strategy=steep_cases(), case_timeout=1800)
     elif part == "runs":
@@ -268,7 +270,7 @@ def minimise(part, tier, sig, case, seed):
     mr = 12 if tier == "quick" else 40
     if part == "long":
         return {"case": case, "note": "problem sub-seed (a single integer)"}
-    if part in ("runs", "steep"):
+    if part in ("runs", "steep", "logedge"):
         return runlevel.field_minimise(case, sig, body, max_runs=mr)
 
     def simp(c):
